@@ -503,6 +503,7 @@ theorem readName_agrees {cfg : Cfg} (hc : CfgOK cfg) (ha : CfgAgree cfg) (buf : 
       obtain ⟨rfl, rfl⟩ := hdec
       have hne := decFrom_labels_nonempty buf _ _ _ _ _ hd
       have h2 := nameLen_ge n' hne
+      have hlen' := hlen.1
       obtain ⟨st', seen', hrun, hc', ho', _⟩ := decodeAt_agrees hc ha buf Strict.maxSegments st.off n' e' hd hlab (by omega)
         (nameFuel buf) 1 [] { st with names := st.names + 1 } hcache (by simp) (by simp [Strict.maxSegments])
         (by simp) (by unfold nameFuel; omega)
@@ -510,7 +511,7 @@ theorem readName_agrees {cfg : Cfg} (hc : CfgOK cfg) (ha : CfgAgree cfg) (buf : 
       dsimp only
       rw [hrun]
       dsimp only
-      rw [if_neg (by rw [name_ok_of_short hlen]; simp)]
+      rw [if_neg (by rw [name_ok_of_short hlen.1]; simp)]
       exact ⟨_, rfl, rfl, CacheOK.cons hc' hd⟩
     · simp at hdec
 
